@@ -164,6 +164,19 @@ def atoi (s : Bytes) : Option Int :=
     if neg then (if v ≤ 9223372036854775808 then some (-(v : Int)) else none)
     else (if v ≤ 9223372036854775807 then some (v : Int) else none)
 
+/-- `strconv.Atoi` with the value it returns next to an error: 0 for a syntax error, the
+clamped `int64` bound for a range error -/
+def atoiFull (s : Bytes) : Int × Bool :=
+  match atoi s with
+  | some v => (v, true)
+  | none =>
+    let (neg, digits) := match s with
+      | 43 :: rest => (false, rest)
+      | 45 :: rest => (true, rest)
+      | _ => (false, s)
+    if digits.isEmpty || !(digits.all fun b => 48 ≤ b && b ≤ 57) then (0, false)
+    else if neg then (-9223372036854775808, false) else (9223372036854775807, false)
+
 def toU8 (i : Int) : Nat := (i % 256).toNat
 
 /-- `NewFromFen` -/
